@@ -178,6 +178,12 @@ def _child(inst, job, outpath):
                               eager_objroots=inst.const["objroot_vm"])
         res["job"] = job
         res["ids"] = dict(inst.ids)
+        if job.get("snapshot") and getattr(inst, "parse_rec", None) is not None:
+            from ..parse import graphsnap as S
+            snap = S.snapshot(inst.graph, inst.parse_rec)
+            snap["unexpanded"] = sorted(n.params["name"] for n in inst.graph.nodes
+                                        if n.is_flat() and not n.is_shared_root() and not n.is_unrolled())
+            res["snapshot"] = snap
         with open(outpath, "w") as f:
             json.dump(res, f, default=str)
         os._exit(0)
